@@ -64,6 +64,7 @@ TypeChecker::TypeChecker(SemanticModel* semaModel, const SyntaxTree* tree)
     : SyntaxVisitor(tree)
     , semaModel_(semaModel)
     , ty_(nullptr)
+    , declTy_(nullptr)
     , ptrdiffTy_(
           pickType(
               semaModel->ptrdiff_t_typedef(),
@@ -815,6 +816,9 @@ SyntaxVisitor::Action TypeChecker::visitVariableAndOrFunctionDeclaration(
             case DeclarationCategory::Type:
                 return typeCheckError(node);
         }
+        // The type an initializer is for: expressions within the declarator
+        // (the size of an array) are typed before its initializer is reached.
+        declTy_ = ty_;
         VISIT(decltor);
     }
 
@@ -839,7 +843,7 @@ SyntaxVisitor::Action TypeChecker::visitExtGNU_Attribute(const ExtGNU_AttributeS
 SyntaxVisitor::Action TypeChecker::visitExpressionInitializer(
         const ExpressionInitializerSyntax* node)
 {
-    auto leftTy = unqualifiedAndResolved(ty_);
+    auto leftTy = unqualifiedAndResolved(declTy_ ? declTy_ : ty_);
     VISIT(node->expression());
     auto rightTy = unqualifiedAndResolved(ty_);
 
